@@ -106,7 +106,9 @@ impl Config {
                 pat.role_needs_remote_static(false).then(|| pubk(&s[0])),
             ],
             psks: [psks.clone(), psks],
-            eph: [Eph::Fixed(key_bytes(3 + 4 * ks)), Eph::Fixed(key_bytes(4 + 4 * ks))],
+            // the responder of a one-way pattern never sends `e`: it is given no fixed ephemeral, so that it holds an
+            // ungenerated one as in ordinary use (its RNG is never asked either)
+            eph: [Eph::Fixed(key_bytes(3 + 4 * ks)), if pat.is_oneway() { Eph::Scripted(0x0e00 + u64::from(ks)) } else { Eph::Fixed(key_bytes(4 + 4 * ks)) }],
             record: false,
             crypto_oracle: true,
             hashed_name: [None, None],
